@@ -1103,7 +1103,7 @@ func propTable() map[string]*PropSpec {
 		th = append(th, mk(0, 4, 5, 3, 412, 0, 0, 3), mk(0, 4, 5, 2, 42, 0, 0, 3))
 		t["C01"] = &PropSpec{ID: "C01", Quick: q, Thorough: th, LabelPrefixes: []string{"C01."},
 			Assumptions: []string{"ideal signature registry with the unforgeability assumption: genuine signatures only under the Byzantine member's and outsiders' keys, byte-exact replays of anything signed earlier in the run allowed", "proposal validation / commitment stubs; committee of 4 equal weights (f=1), one Byzantine member", "honest traffic is flushed FIFO to all correct nodes after each adversarial step; message loss only as listed in the prefixes; optional re-delivery of everything sent so far (delay/duplication)"},
-			Bounds:      []string{"n=4, one Byzantine member (index 1 quick; 0,1,3 thorough); prefixes: nothing / equivocation of a Byzantine first leader with one side committed / all correct nodes locked on the honest view-0 proposal / additionally one correct node committed it with the help of a genuine Byzantine COMMIT, each optionally followed by one or two rounds of election timeouts (the votes of the first being lost); deeper listed prefixes: 4 (Byzantine first leader keeps PREPAREs of X, honest view 1 commits Y at one node, views up to 6, weights 1,2,3,4), 5 (view-1 re-proposal adopted but not prepared, Byzantine-led view 2), 6 (a node locked twice), 7 (the Byzantine member led view 1, where one node committed, and leads view 5), 8 (an early Byzantine COMMIT at a node that never receives the PREPAREs), 9 (a second proposal for a view in which a NEW_VIEW was adopted), the last four followed by the listed concrete action "the Byzantine member sends genuine PREPARE and COMMIT for whatever the correct nodes prepared last"; then <=2 (quick) / <=3 (thorough) fully symbolic adversarial multicasts of listed kinds (PREPREPARE, PREPARE, COMMIT, VIEW_CHANGE with/without proof, NEW_VIEW with 3 votes with/without proof) to a fixed or symbolic subset of correct nodes"},
+			Bounds:      []string{"n=4, one Byzantine member (index 1 quick; 0,1,3 thorough); prefixes: nothing / equivocation of a Byzantine first leader with one side committed / all correct nodes locked on the honest view-0 proposal / additionally one correct node committed it with the help of a genuine Byzantine COMMIT, each optionally followed by one or two rounds of election timeouts (the votes of the first being lost); deeper listed prefixes: 4 (Byzantine first leader keeps PREPAREs of X, honest view 1 commits Y at one node, views up to 6, weights 1,2,3,4), 5 (view-1 re-proposal adopted but not prepared, Byzantine-led view 2), 6 (a node locked twice), 7 (the Byzantine member led view 1, where one node committed, and leads view 5), 8 (an early Byzantine COMMIT at a node that never receives the PREPAREs), 9 (a second proposal for a view in which a NEW_VIEW was adopted), the last four followed by the listed concrete action (the Byzantine member sends genuine PREPARE and COMMIT for whatever the correct nodes prepared last); then <=2 (quick) / <=3 (thorough) fully symbolic adversarial multicasts of listed kinds (PREPREPARE, PREPARE, COMMIT, VIEW_CHANGE with/without proof, NEW_VIEW with 3 votes with/without proof) to a fixed or symbolic subset of correct nodes"},
 			Outside:     []string{"this is NOT a proof of agreement for all schedules: anything beyond the listed prefixes, more than 3 adversarial steps, other delivery orders, committees > 4, more than one Byzantine member"},
 		}
 	}
